@@ -841,3 +841,33 @@ def late_binding_closures(fnode):
             if escape:
                 out.append((fn, sorted(hit), escape))
     return n, out
+
+
+# --------------------------------------------------------------------------------------
+# one mutable object created before a loop, changed inside it and handed to something that is stored per iteration:
+# all stored results share (and see the later changes of) that one object
+LOOP_MUTATORS = {"append", "extend", "add", "update", "setdefault", "pop", "remove", "insert", "clear", "discard", "popitem", "sort"}
+
+
+def loop_shared_mutables(fnode):
+    """-> [(store statement, shared name)]"""
+    out = []
+    for loop in [x for x in walk_no_nested(fnode) if isinstance(x, ast.For)]:
+        rebound = {t.id for st in ast.walk(loop) if isinstance(st, ast.Assign) for t in st.targets if isinstance(t, ast.Name)}
+        rebound |= {y.id for y in ast.walk(loop.target) if isinstance(y, ast.Name)}
+        mutated = set()
+        for c in ast.walk(loop):
+            if isinstance(c, ast.Call) and isinstance(c.func, ast.Attribute) and c.func.attr in LOOP_MUTATORS and isinstance(c.func.value, ast.Name):
+                mutated.add(c.func.value.id)
+            if isinstance(c, ast.Assign):
+                for t in c.targets:
+                    if isinstance(t, ast.Subscript) and isinstance(t.value, ast.Name):
+                        mutated.add(t.value.id)
+        cands = mutated - rebound
+        for st in ast.walk(loop):
+            if isinstance(st, ast.Assign) and any(isinstance(t, (ast.Subscript, ast.Attribute)) for t in st.targets) and isinstance(st.value, ast.Call):
+                into = {norm(t.value) for t in st.targets if isinstance(t, (ast.Subscript, ast.Attribute))}
+                for a in list(st.value.args) + [k.value for k in st.value.keywords]:
+                    if isinstance(a, ast.Name) and a.id in cands and a.id not in into:
+                        out.append((st, a.id))
+    return out
